@@ -1,7 +1,7 @@
 #!/bin/bash
 # usage: confirm_mutant.sh <worktree> <mutant dir (with patch.diff, demo.rs)> <crate: automerge|hexane> <out log>
 # Confirms: demo FAILS with the patch, PASSES without it, and the crate's existing tests pass with the patch.
-WT=$1; M=$2; CRATE=${3:-automerge}; LOG=$4
+WT=$1; M=$2; CRATE=${3:-automerge}; LOG=$4; EXTRA=$5   # EXTRA: another crate whose suite must pass too
 export CARGO_NET_OFFLINE=true
 cd $WT || exit 9
 git checkout -q -- . ; rm -f rust/$CRATE/tests/zz_demo.rs
@@ -20,6 +20,7 @@ rm -f rust/$CRATE/tests/zz_demo.rs
 echo "-- existing suite WITH patch (must pass)"
 ( cd rust && timeout 3600 cargo test -p $CRATE --offline 2>&1 | grep -E "^test result|FAILED|failed|panicked" | head -40 )
 ( cd rust && cargo test -p $CRATE --offline >/dev/null 2>&1 ); C=$?
+if [ -n "$EXTRA" ]; then ( cd rust && timeout 3600 cargo test -p $EXTRA --offline 2>&1 | grep -E "^test result|FAILED|failed" | head -20 ); ( cd rust && cargo test -p $EXTRA --offline >/dev/null 2>&1 ); C2=$?; [ $C2 -ne 0 ] && C=$C2; fi
 git checkout -q -- .
 echo "RESULT demo_without=$A demo_with=$B suite_with=$C"
 if [ $A -eq 0 ] && [ $B -ne 0 ] && [ $C -eq 0 ]; then echo "CONFIRMED"; else echo "NOT-CONFIRMED"; fi
